@@ -404,7 +404,7 @@ func (e *Engine) builtin(fr *frame, x *ssa.Call, b *ssa.Builtin, args []Value, s
 		if fr.dry != nil {
 			fr.dry.noteRegion(dst.P.R, et)
 		}
-		src := st.heap
+		src := e.withStrLit(st.heap, srcP)
 		st.facts = append(st.facts, c.copyRange(&st.heap, dst.P, srcP, nb, et, &src)...)
 		k(st, Scalar{T: n})
 	case "min", "max":
@@ -499,7 +499,7 @@ func (e *Engine) doAppend(fr *frame, x *ssa.Call, args []Value, st *State, k fun
 		if fr.dry != nil {
 			fr.dry.noteRegion(s.P.R, et)
 		}
-		src := st1.heap
+		src := e.withStrLit(st1.heap, tp)
 		st1.facts = append(st1.facts, c.copyRange(&st1.heap, dst, tp, nb, et, &src)...)
 		if fits.IsTrue() {
 			k(st1, Slice{s.P, newLen, s.Cap})
@@ -522,7 +522,7 @@ func (e *Engine) doAppend(fr *frame, x *ssa.Call, args []Value, st *State, k fun
 	e.allocOblig(fr, st2, txt, c.Mul(newLen, es), x.Pos())
 	src := st2.heap
 	st2.facts = append(st2.facts, c.copyRange(&st2.heap, dst, s.P, c.Mul(s.Len, es), et, &src)...)
-	src2 := st2.heap
+	src2 := e.withStrLit(st2.heap, tp)
 	st2.facts = append(st2.facts, c.copyRange(&st2.heap, Ptr{r, c.Mul(s.Len, es)}, tp, c.Mul(tl, es), et, &src2)...)
 	k(st2, Slice{dst, newLen, newCap})
 }
@@ -1059,4 +1059,22 @@ func (e *Engine) freshenRegions(st *State, v Value) Value {
 		return out
 	}
 	return v
+}
+
+
+// withStrLit: a heap in which the bytes of a (short) string constant are present at its fixed region, for use as
+// the source of a copy — string constants are otherwise only known to the byte-indexing code.
+func (e *Engine) withStrLit(h Heap, p Ptr) Heap {
+	if !p.R.IsConst() {
+		return h
+	}
+	lit, ok := e.strByRegion[uint32(p.R.Val)]
+	if !ok || len(lit) > 64 {
+		return h
+	}
+	c := e.C
+	for i := 0; i < len(lit); i++ {
+		c.Store_(&h, Ptr{p.R, c.Const(64, uint64(i))}, 0, types.Typ[types.Uint8], Scalar{T: c.Const(8, uint64(lit[i]))})
+	}
+	return h
 }
